@@ -45,7 +45,7 @@ type Auth struct {
 func (a *Auth) ParseAuthorization(authStr string) (err error) {
 	switch {
 	case strings.HasPrefix(authStr, "Basic "):
-		a.Typ = AuthTypeDigest
+		a.Typ = AuthTypeBasic
 		authBase64Str := strings.TrimPrefix(authStr, "Basic ")
 
 		authInfo, err := base64.StdEncoding.DecodeString(authBase64Str)
@@ -53,7 +53,8 @@ func (a *Auth) ParseAuthorization(authStr string) (err error) {
 			return err
 		}
 
-		tmp := strings.Split(string(authInfo), ":")
+		// rfc7617: user-id不能包含冒号，password可以
+		tmp := strings.SplitN(string(authInfo), ":", 2)
 		if len(tmp) != 2 {
 			return fmt.Errorf("invalid Authorization:%s", authStr)
 		}
